@@ -459,3 +459,16 @@ func sortedCopy(s []string) []string {
 	sort.Strings(c)
 	return c
 }
+
+// scratchBase picks the directory for per-run sandboxes: a memory-backed file system if the
+// machine has one (16 workers creating and deleting small trees contend badly on a journalled disk),
+// else the default temporary directory. Both are case-sensitive here.
+func scratchBase() string {
+	if st, err := os.Stat("/dev/shm"); err == nil && st.IsDir() {
+		if d, err := os.MkdirTemp("/dev/shm", "probe-"); err == nil {
+			os.Remove(d)
+			return "/dev/shm"
+		}
+	}
+	return ""
+}
